@@ -16,7 +16,7 @@
   Everything below is for all gene layouts (nested, identical starts, identical keys, both strands,
   multi-exon, origin-spanning), all query locations and all histories — no bound on sizes.
 -/
-import ASV.Proofs.LookupOk
+import ASV.Proofs.LookupValid
 namespace ASV.C08
 open ASV ASV.Lookup
 
@@ -99,102 +99,270 @@ theorem crossing_sorts_first (a b : Loc) (ha : LocOK a) (hb : LocOK b)
   have := cmpStart_nonneg_linear hb hcb
   omega
 
-/-! ### 5  the record keeps its genes sorted -/
+/-! ### 1b  completeness under arbitrary nesting; the ring (origin-spanning queries and genes) -/
 
-/-- after any history of successful calls the gene list holds exactly the genes added, in location order,
-    with distinct names -/
+/-- completeness of the overlap lookup: *every* gene of the record sharing a base with the location is
+    returned — whatever lies between it and the location in the gene list (genes nested in it, genes ending
+    before the location, identical starts, origin-spanning genes sorting first) -/
+theorem within_overlapping_complete (genes : List Gene) (hs : Sorted genes) (hok : GenesOK genes)
+    (q : Loc) (hq : QueryOK q) (g : Gene) (hg : g ∈ genes) (hsh : g.loc.SharesBase q) :
+    g ∈ within genes q true :=
+  (within_overlapping_exact genes hs hok q hq g).2 ⟨hg, hsh⟩
+
+/-- … and of the containment lookup -/
+theorem within_contained_complete (genes : List Gene) (hs : Sorted genes) (hok : GenesOK genes)
+    (q : Loc) (hq : QueryOK q) (g : Gene) (hg : g ∈ genes) (hc : specContained g.loc q = true) :
+    g ∈ within genes q false :=
+  (within_contained_exact genes hs hok q hq g).2 ⟨hg, hc⟩
+
+/-- ring: an origin-spanning gene (it sorts first, far from where bisection looks) is found from any location
+    it shares a base with — a single-part location near the end of the record, near its start, or an
+    origin-spanning one -/
+theorem within_finds_crossing_gene (genes : List Gene) (hs : Sorted genes) (hok : GenesOK genes)
+    (q : Loc) (hq : QueryOK q) (g : Gene) (hg : g ∈ genes) (_hx : bridgesOrigin g.loc = true)
+    (i : Int) (hi : g.loc.mem i = true) (hqi : q.mem i = true) : g ∈ within genes q true :=
+  within_overlapping_complete genes hs hok q hq g hg ⟨i, hi, hqi⟩
+
+/-- ring: the answer to an origin-spanning location `[x:L) + [0:y)` walks the location: first the genes met
+    in the part before the origin (those not crossing the origin, then the crossing ones), then the genes of
+    the part after the origin that were not met yet; finally the keep test -/
+theorem within_origin_spanning_order (genes : List Gene) (hs : Sorted genes) (hok : GenesOK genes) (hn : genes.Nodup)
+    (p0 p1 : Part) (hq : QueryOK (.compound [p0, p1])) (ov : Bool) :
+    within genes (.compound [p0, p1]) ov =
+      (specPartHits genes p0 ++ (specPartHits genes p1).filter (fun g => !(specPartHits genes p0).contains g)).filter
+        (fun g => specKeeps ov g.loc (.compound [p0, p1])) := by
+  rw [within_eq_spec hs hok _ ov hq]
+  have hnd : ∀ p, (specPartHits genes p).Nodup := by
+    intro p
+    simp only [specPartHits]
+    rw [List.nodup_append]
+    refine ⟨(hn.filter _).filter _, (hn.filter _).filter _, ?_⟩
+    intro a ha b hb e
+    subst e
+    simp only [List.mem_filter] at ha hb
+    simp [hb.2] at ha
+  simp only [specWithin, Loc.parts, List.flatMap_cons, List.flatMap_nil, List.append_nil]
+  rw [dedup_append_nodup _ _ (hnd p0) (hnd p1)]
+
+/-- ring: for an origin-spanning area `[x:L) + [0:y)` with `y < x`, "contained" is again the set-of-bases
+    reading — every base of the gene is a base of the area — for genes whose parts lie on the record -/
+theorem contained_iff_bases_inside_ring (g : Loc) (hg : LocOK g) (p0 p1 : Part) (hgap : p1.hi < p0.lo)
+    :
+    specContained g (.compound [p0, p1]) = true ↔ ∀ i, g.mem i = true → (Loc.compound [p0, p1]).mem i = true := by
+  simp only [specContained, Loc.parts, List.all_eq_true, List.any_cons, List.any_nil, Bool.or_false,
+    Bool.and_eq_true, Bool.or_eq_true, decide_eq_true_eq, Loc.mem, List.any_eq_true, Part.mem_iff]
+  constructor
+  · rintro h i ⟨gp, hgp, h1, h2⟩
+    rcases h gp hgp with h | h
+    · left; omega
+    · right; omega
+  · intro h gp hgp
+    have hne := (hg.2.1 gp hgp).2
+    have ha := h gp.lo ⟨gp, hgp, by omega, by omega⟩
+    have hb := h (gp.hi - 1) ⟨gp, hgp, by omega, by omega⟩
+    -- both ends lie in the same part: every base between them is a base of the area too
+    rcases ha with ha | ha <;> rcases hb with hb | hb
+    · left; omega
+    · exfalso
+      have hm := h (p1.hi) ⟨gp, hgp, by omega, by omega⟩
+      omega
+    · exfalso
+      have hm := h (p1.hi) ⟨gp, hgp, by omega, by omega⟩
+      omega
+    · right; omega
+
+/-! ### 5  the record keeps its genes sorted; the name map -/
+
+/-- after any history of successful calls (adding, clearing, observing) the gene list holds exactly the genes
+    added, in location order, with distinct names -/
 theorem genes_stay_sorted (len : Int) (ops : List Op) (r : Rec) (hok : ∀ op ∈ ops, OpOK op)
     (hrun : run len ops = .ok r) :
-    Sorted r.genes ∧ GenesOK r.genes ∧ (∀ g, g ∈ r.genes ↔ Op.cds g ∈ ops) ∧
+    Sorted r.genes ∧ GenesOK r.genes ∧ (∀ g, g ∈ r.genes ↔ g ∈ (liveAfter ops).genes) ∧
       r.genes.Pairwise (fun a b => a.id ≠ b.id) := by
-  have inv := run_inv hok hrun
-  exact ⟨inv.sorted, inv.ok, inv.genesSeen, inv.ids⟩
+  have inv := (run_inv hok hrun).core
+  exact ⟨inv.sorted, inv.ok, inv.genesLive, inv.ids⟩
 
-/-! ### 6–8  areas, regions, definition genes after any history -/
+/-- `get_cds_by_name` finds exactly the gene that was added under that name (and nothing for other names) -/
+theorem name_map_exact (len : Int) (ops : List Op) (r : Rec) (hok : ∀ op ∈ ops, OpOK op) (hrun : run len ops = .ok r)
+    (gid : Nat) (g : Gene) :
+    r.byName.find? (fun x => x.1 == gid) = some (gid, g) ↔ (g ∈ r.genes ∧ g.id = gid) :=
+  name_lookup hrun hok gid g
 
-/-- every protocluster, candidate cluster, subregion and region of the history — added to the record itself
-    or a child of one that was — lists exactly the genes its location contains -/
+/-- the record's lists of collections are exactly what the spec says is alive after the history -/
+theorem lists_are_live (len : Int) (ops : List Op) (r : Rec) (hok : ∀ op ∈ ops, OpOK op) (hrun : run len ops = .ok r) :
+    r.regions = (liveAfter ops).regions ∧ r.protos = (liveAfter ops).protos ∧
+    r.cands = (liveAfter ops).cands ∧ r.subs = (liveAfter ops).subs := by
+  have inv := (run_inv hok hrun).core
+  exact ⟨inv.regionsEq, inv.protosEq, inv.candsEq, inv.subsEq⟩
+
+/-! ### 6–8  areas, regions, definition genes, sections after any history (clearing calls included) -/
+
+/-- every protocluster, candidate cluster, subregion and region currently in the record — and every child of
+    one — lists exactly the genes its location contains, also after `clear_*` calls, re-adding and
+    re-creation of regions -/
 theorem area_children_exact (len : Int) (ops : List Op) (r : Rec) (hok : HistoryOK ops) (hrun : run len ops = .ok r)
-    (a : AreaT) (ha : Op.area a ∈ ops) (d : AreaT) (hd : d ∈ nodes a) (gid : Nat) :
+    (a : AreaT) (ha : a ∈ (liveAfter ops).areas) (d : AreaT) (hd : d ∈ nodes a) (gid : Nat) :
     gid ∈ r.children d.id ↔ gid ∈ specChildren r.genes d :=
   children_exact hrun hok a ha d hd gid
 
-/-- an area nobody added (directly or as a child) lists no gene -/
+/-- an area never handed to the record (directly or as a child) lists no gene -/
 theorem unregistered_area_empty (len : Int) (ops : List Op) (r : Rec) (hok : HistoryOK ops) (hrun : run len ops = .ok r)
-    (aid : Nat) (hfresh : ∀ a, Op.area a ∈ ops → ∀ d ∈ nodes a, d.id ≠ aid) : r.children aid = [] := by
-  have inv := run_inv hok.opOK hrun
+    (aid : Nat) (hfresh : ∀ a ∈ opsAreas ops, ∀ d ∈ nodes a, d.id ≠ aid) : r.children aid = [] := by
+  have inv := (run_inv hok.opOK hrun).core
   rw [List.eq_nil_iff_forall_not_mem]
   intro gid hmem
-  rw [mem_children, inv.members] at hmem
-  obtain ⟨g, _, d, hl, hx⟩ := hmem
+  rw [mem_children] at hmem
+  obtain ⟨g, _, d, ⟨s, hl⟩, hx⟩ := inv.membersSound _ hmem
   injection hx with h1 _
   obtain ⟨_, a, ha, hd⟩ := hl.contained
-  exact hfresh a ((inv.areasSeen a).1 ha) d hd h1.symm
+  exact hfresh a ha d hd h1.symm
 
-/-- each gene points to the one region containing it, or to none; and no two regions contain the same gene -/
-theorem cds_region_unique (len : Int) (ops : List Op) (r : Rec) (hok : HistoryOK ops) (hrun : run len ops = .ok r)
+/-- a collection that is no longer in the record (cleared) never lists a gene it does not contain -/
+theorem stale_children_sound (len : Int) (ops : List Op) (r : Rec) (hok : HistoryOK ops) (hrun : run len ops = .ok r)
+    (a : AreaT) (ha : a ∈ opsAreas ops) (d : AreaT) (hd : d ∈ nodes a) (gid : Nat) (hm : gid ∈ r.children d.id) :
+    gid ∈ specChildren r.genes d := by
+  have inv := (run_inv hok.opOK hrun).core
+  rw [mem_children] at hm
+  obtain ⟨g, hg, d', ⟨s, hl⟩, hx⟩ := inv.membersSound _ hm
+  injection hx with h1 h2
+  obtain ⟨hc, a', ha', hd'⟩ := hl.contained
+  have e := (hok.ids a' ha' a ha d' hd' d hd h1.symm).1
+  simp only [specChildren, List.mem_map, List.mem_filter]
+  refine ⟨g, ⟨hg, ?_⟩, h2.symm⟩
+  rw [← containedBy_eq_spec (gene_le (inv.ok g hg)), ← e]; exact hc
+
+/-- each gene points to the one region of the record containing it, or to none — also after regions were
+    cleared and re-created; and no two regions contain the same gene -/
+theorem cds_region_unique (len : Int) (ops : List Op) (r : Rec) (hok : ∀ op ∈ ops, OpOK op) (hrun : run len ops = .ok r)
     (g : Gene) (hg : g ∈ r.genes) :
     (∀ a ∈ r.regions, specContained g.loc a.loc = true → r.regionOfGene g.id = some a.id) ∧
     ((∀ a ∈ r.regions, specContained g.loc a.loc = false) → r.regionOfGene g.id = none) ∧
     (∀ a ∈ r.regions, ∀ b ∈ r.regions, specContained g.loc a.loc = true → specContained g.loc b.loc = true → a = b) := by
-  have inv := run_inv hok.opOK hrun
+  have inv := (run_inv hok hrun).core
   have hle := gene_le (inv.ok g hg)
   obtain ⟨h1, h2⟩ := region_of_gene hrun hok hg
   refine ⟨?_, ?_, ?_⟩
   · intro a ha hc; exact h1 a ha (by rw [containedBy_eq_spec hle]; exact hc)
   · intro hn; exact h2 (fun a ha => by rw [containedBy_eq_spec hle]; exact hn a ha)
   · intro a ha b hb hca hcb
-    exact region_containing_unique inv hg ha hb (by rw [containedBy_eq_spec hle]; exact hca)
+    exact containing_unique inv.disjoint inv.regionQ (inv.ok g hg) ha hb (by rw [containedBy_eq_spec hle]; exact hca)
       (by rw [containedBy_eq_spec hle]; exact hcb)
 
-/-- the regions of the record are the region objects that were added -/
-theorem regions_are_those_added (len : Int) (ops : List Op) (r : Rec) (hok : ∀ op ∈ ops, OpOK op)
-    (hrun : run len ops = .ok r) (a : AreaT) : a ∈ r.regions ↔ (Op.area a ∈ ops ∧ a.kind = .region) :=
-  (run_inv hok hrun).regionsSeen a
+/-- right after `clear_regions` no gene points to a region -/
+theorem clear_regions_resets_links (len : Int) (ops : List Op) (r : Rec) (hok : ∀ op ∈ ops, OpOK op)
+    (hrun : run len (ops ++ [.clearRegions]) = .ok r) (g : Gene) (hg : g ∈ r.genes) : r.regionOfGene g.id = none := by
+  have hok' : ∀ op ∈ ops ++ [Op.clearRegions], OpOK op := by
+    intro op hop
+    rcases List.mem_append.1 hop with h | h
+    · exact hok op h
+    · simp only [List.mem_singleton] at h; subst h; trivial
+  have inv := (run_inv hok' hrun).core
+  have hreg : r.regions = [] := by rw [inv.regionsEq, liveAfter_append]; rfl
+  exact (inv.regionPtr g hg).2 (fun a ha => by rw [hreg] at ha; simp at ha)
+
+/-- `get_cds_features_within_regions` returns exactly the genes inside some region -/
+theorem within_regions_exact (len : Int) (ops : List Op) (r : Rec) (hok : HistoryOK ops) (hrun : run len ops = .ok r)
+    (gid : Nat) :
+    gid ∈ (r.regions.flatMap fun a => r.children a.id) ↔
+      ∃ g ∈ r.genes, g.id = gid ∧ ∃ a ∈ r.regions, specContained g.loc a.loc = true := by
+  have inv := (run_inv hok.opOK hrun).core
+  simp only [List.mem_flatMap]
+  constructor
+  · rintro ⟨a, ha, hm⟩
+    have hl : a ∈ (liveAfter ops).areas := by rw [← registered_eq_live inv]; exact regions_sub_registered r a ha
+    have := (children_exact hrun hok a hl a (nodes_self a) gid).1 hm
+    simp only [specChildren, List.mem_map, List.mem_filter] at this
+    obtain ⟨g, ⟨hg, hc⟩, e⟩ := this
+    exact ⟨g, hg, e, a, ha, hc⟩
+  · rintro ⟨g, hg, rfl, a, ha, hc⟩
+    have hl : a ∈ (liveAfter ops).areas := by rw [← registered_eq_live inv]; exact regions_sub_registered r a ha
+    refine ⟨a, ha, (children_exact hrun hok a hl a (nodes_self a) g.id).2 ?_⟩
+    simp only [specChildren, List.mem_map, List.mem_filter]
+    exact ⟨g, ⟨hg, hc⟩, rfl⟩
 
 /-- a protocluster's defining genes are exactly the genes inside it and inside its core that carry a core
     annotation for its product -/
 theorem definition_cdses_exact (len : Int) (ops : List Op) (r : Rec) (hok : HistoryOK ops) (hrun : run len ops = .ok r)
-    (a : AreaT) (ha : Op.area a ∈ ops) (d : AreaT) (hd : d ∈ nodes a) (hk : d.kind = .proto) (gid : Nat) :
+    (a : AreaT) (ha : a ∈ (liveAfter ops).areas) (d : AreaT) (hd : d ∈ nodes a) (hk : d.kind = .proto) (gid : Nat) :
     gid ∈ r.definition d.id ↔ gid ∈ specDefinition r.genes d :=
   definition_exact hrun hok a ha d hd hk gid
 
-/-! ### 9  build-order independence -/
+/-- the pre / cross / post-origin sections of a region of the record: its genes, each in exactly the section
+    `specSection` names (crossing genes → cross; in an origin-spanning region the genes of the part after the
+    origin → post, the others → pre; in an ordinary region → post) -/
+theorem region_sections_partition (len : Int) (ops : List Op) (r : Rec) (hok : HistoryOK ops) (hrun : run len ops = .ok r)
+    (a : AreaT) (ha : a ∈ r.regions) (s : Section) (gid : Nat) :
+    gid ∈ r.section a.id s ↔
+      ∃ g ∈ r.genes, g.id = gid ∧ specContained g.loc a.loc = true ∧ specSection a.loc g.loc = s :=
+  region_sections_exact hrun hok a ha s gid
 
-/-- any two orderings of the same calls (genes before areas, after them, or interleaved in any way) end with
-    the same genes, the same regions, the same area ↔ gene relation and the same defining genes … -/
+/-- for every collection: a gene is listed iff it sits in at least one of the three sections -/
+theorem sections_cover_children (len : Int) (ops : List Op) (r : Rec) (hok : ∀ op ∈ ops, OpOK op)
+    (hrun : run len ops = .ok r) (aid gid : Nat) : gid ∈ r.children aid ↔ ∃ s, gid ∈ r.section aid s :=
+  sections_cover hrun hok aid gid
+
+/-! ### 8b  caches: observing calls return the live values -/
+
+/-- `get_cds_features()` after any history returns the current gene list (never a stale tuple) -/
+theorem get_cds_features_fresh (len : Int) (ops : List Op) (r' : Rec) (hok : ∀ op ∈ ops, OpOK op)
+    (hrun : run len (ops ++ [.peekCds]) = .ok r') :
+    ∃ r, run len ops = .ok r ∧ r'.log = r.log ++ [[r.genes.map (·.id)]] := by
+  obtain ⟨r, hr, hs⟩ := run_snoc hrun
+  simp only [step, pure, Except.pure] at hs
+  injection hs with hs; subst hs
+  exact ⟨r, hr, (InvCore.peekCds (L := liveAfter ops) (ever := opsAreas ops) (run_inv hok hr).cache).2.2⟩
+
+/-- `collection.cds_children` after any history returns the collection's current gene list and the current
+    contents of its three sections (the dirty flags of the four caches are set whenever they must be) -/
+theorem cds_children_fresh (len : Int) (ops : List Op) (aid : Nat) (r' : Rec) (hok : ∀ op ∈ ops, OpOK op)
+    (hrun : run len (ops ++ [.peekArea aid]) = .ok r') :
+    ∃ r, run len ops = .ok r ∧
+      r'.log = r.log ++ [[r.children aid, r.section aid .pre, r.section aid .cross, r.section aid .post]] := by
+  obtain ⟨r, hr, hs⟩ := run_snoc hrun
+  simp only [step, pure, Except.pure] at hs
+  injection hs with hs; subst hs
+  exact ⟨r, hr, (peekArea_spec (run_inv hok hr).cache aid).2.2⟩
+
+/-! ### 9  build-order independence (histories of adding calls) -/
+
+/-- any two orderings of the same adding calls (genes before areas, after them, or interleaved in any way)
+    end with the same genes, the same regions, the same area ↔ gene relation, the same sections and the same
+    defining genes … -/
 theorem build_order_independent (len : Int) (ops₁ ops₂ : List Op) (r₁ r₂ : Rec) (hp : ops₁.Perm ops₂)
-    (hok : ∀ op ∈ ops₁, OpOK op) (h1 : run len ops₁ = .ok r₁) (h2 : run len ops₂ = .ok r₂) :
+    (hadd : AddsOnly ops₁) (hok : ∀ op ∈ ops₁, OpOK op) (h1 : run len ops₁ = .ok r₁) (h2 : run len ops₂ = .ok r₂) :
     (∀ g, g ∈ r₁.genes ↔ g ∈ r₂.genes) ∧ (∀ a, a ∈ r₁.regions ↔ a ∈ r₂.regions) ∧
     (∀ aid gid, gid ∈ r₁.children aid ↔ gid ∈ r₂.children aid) ∧
-    (∀ aid gid, gid ∈ r₁.definition aid ↔ gid ∈ r₂.definition aid) := by
-  obtain ⟨hg, hr, hm, hd, _⟩ := order_independent_sets hp hok h1 h2
-  refine ⟨hg, hr, ?_, ?_⟩
+    (∀ aid gid, gid ∈ r₁.definition aid ↔ gid ∈ r₂.definition aid) ∧
+    (∀ aid s gid, gid ∈ r₁.section aid s ↔ gid ∈ r₂.section aid s) := by
+  obtain ⟨hg, hr, hm, hd, hs⟩ := order_independent_sets hp hadd hok h1 h2
+  refine ⟨hg, hr, ?_, ?_, ?_⟩
   · intro aid gid; rw [mem_children, mem_children, hm]
   · intro aid gid; rw [mem_definition, mem_definition, hd]
+  · intro aid s gid; rw [mem_section, mem_section, hs]
 
-/-- a history of well-formed calls runs without an exception exactly when its calls are pairwise compatible
-    (distinct gene locations and names, non-overlapping regions) and its areas lie inside the record … -/
-theorem history_succeeds_iff (len : Int) (ops : List Op) (hok : ∀ op ∈ ops, OpOK op) :
+/-- a history of well-formed adding calls runs without an exception exactly when its calls are pairwise
+    compatible (distinct gene locations and names, non-overlapping regions) and its areas lie inside the record … -/
+theorem history_succeeds_iff (len : Int) (ops : List Op) (hadd : AddsOnly ops) (hok : ∀ op ∈ ops, OpOK op) :
     (∃ r, run len ops = .ok r) ↔ Valid len ops :=
-  run_ok_iff hok
+  run_ok_iff hadd hok
 
 /-- … so if one ordering of the calls runs through, every ordering does, and with the same outcome -/
 theorem build_order_never_matters (len : Int) (ops₁ ops₂ : List Op) (r₁ : Rec) (hp : ops₁.Perm ops₂)
-    (hok : ∀ op ∈ ops₁, OpOK op) (h1 : run len ops₁ = .ok r₁) :
+    (hadd : AddsOnly ops₁) (hok : ∀ op ∈ ops₁, OpOK op) (h1 : run len ops₁ = .ok r₁) :
     ∃ r₂, run len ops₂ = .ok r₂ ∧
       (∀ g, g ∈ r₁.genes ↔ g ∈ r₂.genes) ∧ (∀ a, a ∈ r₁.regions ↔ a ∈ r₂.regions) ∧
       (∀ aid gid, gid ∈ r₁.children aid ↔ gid ∈ r₂.children aid) ∧
-      (∀ aid gid, gid ∈ r₁.definition aid ↔ gid ∈ r₂.definition aid) := by
+      (∀ aid gid, gid ∈ r₁.definition aid ↔ gid ∈ r₂.definition aid) ∧
+      (∀ aid s gid, gid ∈ r₁.section aid s ↔ gid ∈ r₂.section aid s) := by
   have hok2 : ∀ op ∈ ops₂, OpOK op := fun op hop => hok op (hp.mem_iff.2 hop)
-  obtain ⟨r₂, h2⟩ := (run_ok_iff hok2).2 (((run_ok_iff hok).1 ⟨r₁, h1⟩).perm hp)
-  exact ⟨r₂, h2, build_order_independent len ops₁ ops₂ r₁ r₂ hp hok h1 h2⟩
+  obtain ⟨r₂, h2⟩ := (run_ok_iff (hadd.perm hp) hok2).2 (((run_ok_iff hadd hok).1 ⟨r₁, h1⟩).perm hp)
+  exact ⟨r₂, h2, build_order_independent len ops₁ ops₂ r₁ r₂ hp hadd hok h1 h2⟩
 
 /-- … and every gene points to the same region -/
 theorem build_order_independent_region (len : Int) (ops₁ ops₂ : List Op) (r₁ r₂ : Rec) (hp : ops₁.Perm ops₂)
-    (hok : HistoryOK ops₁) (h1 : run len ops₁ = .ok r₁) (h2 : run len ops₂ = .ok r₂) :
+    (hadd : AddsOnly ops₁) (hok : ∀ op ∈ ops₁, OpOK op) (h1 : run len ops₁ = .ok r₁) (h2 : run len ops₂ = .ok r₂) :
     ∀ g ∈ r₁.genes, r₁.regionOfGene g.id = r₂.regionOfGene g.id :=
-  order_independent_region hp hok h1 h2
+  order_independent_region hp hadd hok h1 h2
 
 /-! ### non-vacuity and the repaired witnesses -/
 
@@ -214,6 +382,12 @@ example : Sorted [{ id := 0, loc := .compound [⟨190, 200, .fwd⟩, ⟨0, 10, .
 /-- a history: gene, origin-spanning subregion, gene — both genes end up in the subregion -/
 example : (run 1000 [.cds (g 0 910 920), .area (.mk 200 .sub (.compound [⟨900, 1000, .fwd⟩, ⟨0, 50, .fwd⟩])
       (.simple ⟨0, 1, .fwd⟩) "" []), .cds (g 1 10 20), .cds (g 2 60 70)]).toOption.map (·.children 200) = some [0, 1] := by
-  decide
+  decide +kernel
+/-- … the first in its pre-origin section, the second in its post-origin section; after the subregions are
+    cleared nothing is alive but the genes -/
+example : (run 1000 [.cds (g 0 910 920), .area (.mk 200 .sub (.compound [⟨900, 1000, .fwd⟩, ⟨0, 50, .fwd⟩])
+      (.simple ⟨0, 1, .fwd⟩) "" []), .cds (g 1 10 20), .peekArea 200, .clearSubs [], .peekCds]).toOption.map (·.log)
+    = some [[[0, 1], [0], [], [1]], [[1, 0]]] := by
+  decide +kernel
 
 end ASV.C08
